@@ -245,7 +245,15 @@ class C19(ParserSessionProp):
                     for start in range(0, len(doc), step):
                         text = to_string(copy.deepcopy(doc[start:start + step]), fmt)
                         if fmt not in LINE_FORMATS:
-                            n_records += count_records(text, fmt)
+                            try:
+                                n_records += count_records(text, fmt)
+                            except Exception as e2:  # noqa
+                                violations.append(Violation(
+                                    property=self.id, oracle='document_well_formed',
+                                    message=f'{fmt} output cannot be decoded: {type(e2).__name__}: {str(e2)[:100]}',
+                                    signature={'format': fmt, 'lang': lang}))
+                                n_records = len(doc)
+                                break
                     if fmt not in LINE_FORMATS and n_records != len(doc):
                         violations.append(Violation(
                             property=self.id, oracle='one_record_per_sentence',
@@ -348,7 +356,14 @@ class C19(ParserSessionProp):
                         signature=dict(sig, exc=type(e).__name__)))
                     continue
                 if fmt not in LINE_FORMATS:
-                    n_records = count_records(text, fmt)
+                    try:
+                        n_records = count_records(text, fmt)
+                    except Exception as e2:  # noqa
+                        violations.append(Violation(
+                            property=self.id, oracle='document_well_formed',
+                            message=f'{fmt} output cannot be decoded: {type(e2).__name__}: {str(e2)[:100]}',
+                            signature={'format': fmt, 'lang': lang}))
+                        continue
                     if n_records != 3:
                         violations.append(Violation(
                             property=self.id, oracle='one_record_per_sentence',
